@@ -159,6 +159,14 @@ CWL_SCATTER = """  scatter:
 """
 
 
+def cwl_nested_document(kind: str, bound: int) -> str:
+    """cwltool's own loop-inside-loop-all.cwl / scatter-inside-loop.cwl with the loop bound replaced (counts >= 10 on both levels)"""
+    from cwltool.tests.util import get_data
+    if kind == "loop-in-loop":
+        return open(get_data("tests/loop-ext/loop-inside-loop-all.cwl")).read().replace("inputs.i2 < 4", f"inputs.i2 < {bound}")
+    return open(get_data("tests/loop-ext/scatter-inside-loop.cwl")).read().replace("inputs.i1[0] < 10", f"inputs.i1[0] < {bound}")
+
+
 def cwl_document(method: str, scattered: bool) -> str:
     """a cwltool:Loop document modelled on cwltool's tests/loop-ext (ExpressionTool body, no container): the loop counts from the
     start value up to `limit`; with `scattered` one loop instance per element of the start array"""
@@ -301,6 +309,9 @@ class C06(Property):
                           for _ in range(10)] + [(m, False, s0, 12) for m in ("all", "last") for s0 in (0, 1, 12)]
         for method, scattered, start, limit in cwl_cases:
             yield {"op": "cwl", "method": method, "scattered": scattered, "start": start, "limit": limit}
+        if wide:   # loops inside loops / scatter inside a loop, more than 10 iterations on both levels
+            yield {"op": "cwl", "kind": "loop-in-loop", "bound": 12, "method": "all", "scattered": False, "start": 1, "limit": 1}
+            yield {"op": "cwl", "kind": "scatter-in-loop", "bound": 12, "method": "last", "scattered": False, "start": list(range(1, 13)), "limit": 1}
         # ---- LoopCombinatorStep: when does it stop reading a port ----
         for _ in range(120 if wide else 30):
             k = rng.randint(1, 3)
@@ -578,9 +589,9 @@ class C06(Property):
         os.makedirs(wdir, exist_ok=True)
         doc, job = os.path.join(wdir, "loop.cwl"), os.path.join(wdir, "job.yml")
         with open(doc, "w") as f:
-            f.write(cwl_document(case["method"], case["scattered"]))
+            f.write(cwl_nested_document(case["kind"], case["bound"]) if case.get("kind") else cwl_document(case["method"], case["scattered"]))
         with open(job, "w") as f:
-            json.dump({"i1": case["start"], "limit": case["limit"]}, f)
+            json.dump({"i1": case["start"], "i2": case["limit"]} if case.get("kind") else {"i1": case["start"], "limit": case["limit"]}, f)
         cfg = {"version": "v1.0", "workflows": {"w": {"type": "cwl", "config": {"file": doc, "settings": job}}}, "path": wdir}
         cwl_definition = cwl_utils.parser.load_document_by_uri(doc)
         cwl_inputs = cwl_utils.parser.utils.load_inputfile_by_uri(version=cwl_definition.cwlVersion, path=job,
@@ -591,17 +602,23 @@ class C06(Property):
         await wf.save(context.database)
         hung, outputs, live = await sd.run_workflow(wf, StreamFlowExecutor(wf).run())
         if hung:
-            ctx.fail("cwl:hang", f"the CWL loop workflow made no progress for 180 s; steps still running: {live[:8]}", case)
+            ctx.fail("cwl:hang", f"the CWL loop workflow made no progress for 180 s; steps still running: {live}", case)
             return
 
         def expected(s0: int):
             vals = list(range(s0 + 1, case["limit"] + 1))
             return vals if case["method"] == "all" else (vals[-1] if vals else None)
 
-        exp = [expected(s0) for s0 in case["start"]] if case["scattered"] else expected(case["start"])
+        exp = None if case.get("kind") else [expected(s0) for s0 in case["start"]] if case["scattered"] else expected(case["start"])
+        counts = [max(0, case["limit"] - s0) for s0 in (case["start"] if case["scattered"] else [case["start"]])] if not case.get("kind") else []
+        if case.get("kind") == "loop-in-loop":      # outer: i2 = limit .. bound-1 ; inner: i1 = start .. i2, emitting i1 + 1
+            exp = [list(range(case["start"] + 1, i2 + 2)) for i2 in range(case["limit"], case["bound"])]
+            counts = [len(x) for x in exp] + [len(exp)]
+        elif case.get("kind") == "scatter-in-loop":  # every iteration adds i2 to every element, while the first element < bound
+            n = max(0, -(-(case["bound"] - case["start"][0]) // case["limit"]))
+            exp, counts = ([x + n * case["limit"] for x in case["start"]] if n else None), [n]
         got = outputs.get("o1")
         if got != exp:
-            counts = [max(0, case["limit"] - s0) for s0 in (case["start"] if case["scattered"] else [case["start"]])]
             ctx.fail(f"cwl:{case['method']}:wrong-output" + (":count>=11" if max(counts) >= 11 else ""),
                      f"workflow output o1 = {got!r}, expected {exp!r} (iteration counts {counts})", case)
         # every loop output step of the translated workflow: observed arrival order -> Lean model
@@ -624,14 +641,18 @@ class C06(Property):
                     src[(t.tag, repr(t.value))] = ids[id(t)]
                     words.append(f"d:{t.tag}:{ids[id(t)]}")
             parts, term = [], "-"
+            data = [x for x in in_port.token_list if id(x) in ids]
             for i, t in enumerate(out):
                 if isinstance(t, TerminationToken):
                     term = t.value.name if i == len(out) - 1 else "MISPLACED"
-                elif isinstance(t, ListToken):
-                    parts.append(f"{t.tag}[" + ",".join(f"{e.tag}:{ids.get(id(e), '?')}" for e in t.value) + "]")
+                elif method == "all":
+                    parts.append(f"{t.tag}[" + ",".join(f"{e.tag}:{ids.get(id(e), '?')}" for e in t.value) + "]" if isinstance(t, ListToken)
+                                 else f"{t.tag}<not-a-list>")
                 else:
-                    cands = [k for (tg, v), k in src.items() if tg.rsplit(".", 1)[0] == t.tag and v == repr(t.value)]
-                    parts.append(f"{t.tag}=" + ("None" if t.value is None else str(max(cands)) if cands else "?"))
+                    # `last` retags a copy of a data token: the copy holds the very same value object (or an equal scalar)
+                    cands = [ids[id(x)] for x in data if x.tag.rsplit(".", 1)[0] == t.tag and (x.value is t.value or
+                             (not isinstance(t, ListToken) and repr(x.value) == repr(t.value)))]
+                    parts.append(f"{t.tag}=" + ("None" if t.value is None and not cands else str(max(cands)) if cands else "?"))
             exp_line = ((";".join(parts) or "-") + "|term=" + term, dict(case, step=st.name))
             self._lines.append(f"loopout {method} " + " ".join(words))
             self._expect.append(exp_line)
